@@ -30,7 +30,7 @@
 (* TLC checks that A obeys R in every constrained cell and prints one CASE *)
 (* per cell.                                                               *)
 (***************************************************************************)
-EXTENDS Naturals, Sequences, FiniteSets, TLC, SequencesExt, FiniteSetsExt
+EXTENDS Naturals, Sequences, FiniteSets, TLC, SequencesExt, FiniteSetsExt, IOUtils
 
 CONSTANTS MaxDepth,      \* nesting depth of the main leaves
           ExtraDepth     \* nesting depth of the remaining primitive leaves
@@ -177,8 +177,11 @@ RuleDup(what, dup) == IF ~dup THEN Acc
 (***************************************************************************)
 (* A -- the table of the code                                              *)
 (***************************************************************************)
+\* the transcription follows the tree under test: PENNE_FIXED_LIKE_ELEMENT=1 (set by the check after
+\* probing the compiler) means can_be_element(Arraylike) = false
+FixedLikeElement == "PENNE_FIXED_LIKE_ELEMENT" \in DOMAIN IOEnv /\ IOEnv["PENNE_FIXED_LIKE_ELEMENT"] = "1"
 RECURSIVE WF(_, _), WFInner(_, _)
-CanElem(t, i) == t[i] \notin {"void", "slice", "sptr", "endless", "view"}
+CanElem(t, i) == t[i] \notin {"void", "slice", "sptr", "endless", "view"} \cup (IF FixedLikeElement THEN {"like"} ELSE {})
 WFElem(t, i) == CanElem(t, i) /\ WFInner(t, i)
 WF(t, i) == CASE t[i] \in {"arr", "narr", "slice", "sptr", "endless", "like"} -> WFElem(t, i + 1)
               [] t[i] \in {"ptr", "view"} -> WFInner(t, i + 1)
